@@ -344,15 +344,23 @@ def run_case(case, workdir):
                 b0, a0 = before.get(name), after.get(name)
                 steps = [e for e in world.log[log0:] if e[0] == n]
                 concurrent = ph["schedule"] is not None
-                # wholeness after every step of this phase
-                for e in world.log[log0:]:
-                    d = e[2].get(name) if e[2] is not None else None
-                    if not whole(d):
-                        how = "concurrent-writers-interleave" if concurrent else ("crash-leaves-truncated-file" if c["kill_at"] is not None else "partial-content-visible-during-write")
-                        if how != "partial-content-visible-during-write" or e is world.log[-1]:
-                            fail("cache-not-whole:" + how, "after step %s of call %d the cache file %s holds %d bytes that are not one complete profile (%s)"
-                                 % (e[1], e[0], name, len(d), "empty" if d == b"" else "mixed/truncated"), call=n)
-                        break
+                # wholeness: at the end of the phase, and after every step of it (a kill or a concurrent call can observe any of them)
+                bad = None
+                if not whole(b0):
+                    pass                         # damaged before this phase began: reported when it happened
+                elif not whole(a0):
+                    bad = ("the phase", a0)
+                else:
+                    for e in world.log[log0:]:
+                        d = e[2].get(name) if e[2] is not None else None
+                        if not whole(d) and (concurrent or c["kill_at"] is not None):
+                            bad = ("step %s of call %d" % (e[1], e[0]), d)
+                            break
+                if bad is not None:
+                    how = ("concurrent-writers-interleave" if concurrent else
+                           ("crash-leaves-truncated-file" if c["kill_at"] is not None else "holds-something-that-is-not-a-profile-sent"))
+                    fail("cache-not-whole:" + how, "after %s the cache file %s holds %d bytes that are not one complete profile the server sent (%s)"
+                         % (bad[0], name, len(bad[1]), "empty" if bad[1] == b"" else "mixed, truncated or not a profile"), call=n)
                 if c["must"] and (res is None or res[0] != "ok"):
                     fail("cache-poisoned:later-request-fails-" + c["must"], "a request against a well-behaved server (%s) failed with %s: the cache file holds %s"
                          % (c["word"], res and res[1], "nothing" if b0 is None else ("0 bytes" if b0 == b"" else "%d bytes, %s" % (len(b0), "a whole profile" if whole(b0) else "not a whole profile"))), call=n)
@@ -488,9 +496,9 @@ def run(rep, tier, rng):
         cases += gen_races(rng, [(False, True)], 6, full=True, sample=6000)
         cases += gen_servers(rng, 60)
     else:
-        cases += gen_sequences(rng, 3, 250, [4])
+        cases += gen_sequences(rng, 3, 150, [4])
         cases += gen_crashes(rng)
-        cases += gen_races(rng, [(False, True), (True, False)], 6, sample=300)
+        cases += gen_races(rng, [(False, True), (True, False)], 6, sample=160)
         cases += gen_servers(rng, 8)
     results = H.pmap(run_case, cases, "c15", chunk=6)
     items, kept = [], []
